@@ -502,40 +502,74 @@ def check_written(ctx, items, label):
 
 
 def monitor_divergence(ctx, n):
-    """one member made infeasible: run_control must not return normally"""
+    """one member made infeasible: run_control must not return normally.
+    mode 'raise'   : default run functions (the member's solver raises, run_control lets it through)
+    mode 'tolerant': the documented ctrl_variables[...]['run'] hook with a run function that swallows the
+                     solver's not-converged exception, so that the flag path of _evaluate_multinet decides"""
     import pandapipes
     import pandapower
     from pandapipes.multinet.control.run_control_multinet import run_control
+    from pandapipes.pf.pipeflow_setup import PipeflowNotConverged
+    from pandapower.powerflow import LoadflowNotConverged
+
+    def tolerant(fn, exc):
+        def run(net, **kw):
+            try:
+                fn(net, **kw)
+            except exc:
+                net["converged"] = False
+        return run
     rng = ctx.rng
     for it in range(n):
         kind = ["power_gas", "gas_gas", "all"][it % 3]
+        mode = "tolerant" if it % 4 else "raise"
         mn, nets, cps, desc = scenario(ctx, kind)
         for c in mn.controller.object.values:
             c.initial_run = False
-        mn.controller["initial_run"] = False if "initial_run" in mn.controller.columns else None
+        mn.controller["initial_run"] = False
         victim = rng.choice(sorted(nets))
         if isinstance(nets[victim], pandapipes.pandapipesNet):
             pandapipes.create_sink(nets[victim], nets[victim].junction.index[-1], 1e7)
         else:
             pandapower.create_load(nets[victim], nets[victim].bus.index[-1], p_mw=1e6, q_mvar=1e6)
-        cv = {"nets": {n_: {"continue_on_divergence": True, "initial_run": False} for n_ in nets}}
-        returned = False
-        err = None
+        cv = None
+        if mode == "tolerant":
+            cv = {"nets": {n_: {"run": tolerant(pandapipes.pipeflow, PipeflowNotConverged)
+                                if isinstance(nets[n_], pandapipes.pandapipesNet)
+                                else tolerant(pandapower.runpp, LoadflowNotConverged), "initial_run": False}
+                           for n_ in nets}}
+        returned, err = False, None
         try:
             run_control(mn, ctrl_variables=cv)
             returned = True
         except Exception as e:
             err = type(e).__name__
         flags = {n_: bool(nets[n_].get("converged", False)) for n_ in nets}
-        d = dict(desc, victim=victim, member_converged=flags, outcome="returned" if returned else err)
+        d = dict(desc, victim=victim, mode=mode, member_converged=flags, outcome="returned" if returned else err)
         ctx.case(d, True)
-        ctx.count("divergence_" + ("returned" if returned else err))
+        ctx.count("divergence_%s_%s" % (mode, "returned" if returned else err))
         if returned and not all(flags.values()):
             ctx.violation({"fn": "run_control", "clause": "multinet_converged_iff_all"},
                           "run_control returned normally (multinet reported converged) although member %s did not "
                           "converge: %s" % (victim, flags), d)
         elif returned:
             ctx.note("divergence injection into %s did not make it diverge (flags %s)" % (victim, flags))
+        elif mode == "tolerant" and err != "NetCalculationNotConverged":
+            ctx.note("divergence (tolerant run function) ended in %s instead of NetCalculationNotConverged" % err)
+    # observation (error path, not a clause of C20): continue_on_divergence=True
+    try:
+        mn, nets, cps, desc = scenario(ctx, "gas_gas")
+        pandapipes.create_sink(nets["gas2"], nets["gas2"].junction.index[-1], 1e7)
+        cv = {"nets": {n_: {"continue_on_divergence": True} for n_ in nets}}
+        try:
+            run_control(mn, ctrl_variables=cv)
+        except Exception as e:
+            if type(e).__name__ not in ("NetCalculationNotConverged", "PipeflowNotConverged"):
+                ctx.note("continue_on_divergence=True with a diverging member ends in %s: _evaluate_multinet indexes the "
+                         "level order with a Python bool (levelorder[True] adds an axis), so _control_repair cannot unpack "
+                         "(controller, net) pairs" % type(e).__name__)
+    except Exception:
+        pass
 
 
 def monitor_timeseries(ctx, n):
